@@ -121,3 +121,30 @@ Proof.
   intros HF Ht He. apply map_ext_in. intros rows Hin.
   rewrite Forall_forall in HF. specialize (HF _ Hin). subst T. apply flatten_index; assumption.
 Qed.
+
+(* ---------- the get() loop assembled from the regenerated guard and advance ---------- *)
+Fixpoint get_loop_gen {A} (fuel : nat) (start b T n : Z) (idx : list A) : list (list A) :=
+  match fuel with
+  | O => []
+  | S f =>
+      if rollout_get_guard start T n
+      then firstn (Z.to_nat b) (skipn (Z.to_nat start) idx) :: get_loop_gen f (rollout_get_advance start b) b T n idx
+      else []
+  end.
+
+Lemma get_loop_gen_eq {A} fuel : forall start b T n (idx : list A),
+  get_loop_gen fuel (Z.of_nat start) (Z.of_nat b) (Z.of_nat T) (Z.of_nat n) idx = get_loop fuel start b (T * n) idx.
+Proof.
+  induction fuel as [|f IH]; intros start b T n idx; [reflexivity|].
+  cbn [get_loop_gen get_loop]. rewrite frag_get_guard, frag_get_advance, !Nat2Z.id.
+  destruct (start <? T * n); [|reflexivity]. f_equal. apply IH.
+Qed.
+
+(* the loop of get() as regenerated from buffers.py partitions any index list of the rollout *)
+Theorem get_loop_gen_partition {A} (b T n : nat) (idx : list A) :
+  1 <= b -> length idx = T * n ->
+  concat (get_loop_gen (T * n) 0%Z (Z.of_nat b) (Z.of_nat T) (Z.of_nat n) idx) = idx.
+Proof.
+  intros Hb Hl. change 0%Z with (Z.of_nat 0). rewrite get_loop_gen_eq.
+  rewrite get_loop_concat; auto. lia.
+Qed.
